@@ -426,7 +426,8 @@ theorem update_restore (sc : Schema) (cfg : Cfg) (t : Table) (args : Args) (sets
     by_cases hj : j ∈ sets.map (·.1)
     · exact Or.inl (mem_updateCols sc cfg sets hs j hj)
     · exact Or.inr (applySets_getD args sets r j hj)
-  simp only [stmtPhase1, apply] at h
+  replace h := (stmtPhase1_update_ok h).2
+  simp only [updatePhase1, apply] at h
   have haft := update_after sc t (fun r => matches_ r args w) (applySets args sets) hu hkey
   simp only [updated] at haft
   rw [haft] at h
